@@ -240,9 +240,11 @@ class Case:
             h = self.images.get(s)
             if h is None:
                 continue
-            raw = bytes.fromhex(h)
-            v = int.from_bytes(canon_image(raw), "little")
-            L.append("(%d%%nat, %d, %d)" % (s, v, len(raw)))
+            raw = canon_image(bytes.fromhex(h))
+            ch = []
+            for i in range(0, len(raw), 4):
+                ch.append("0x%xp+0%%float" % int.from_bytes(raw[i:i + 4], "little"))
+            L.append("(%d%%nat, [%s], %d)" % (s, "; ".join(ch), len(raw)))
         return "[" + "; ".join(L) + "]"
 
     def to_json(self):
@@ -362,6 +364,8 @@ def run_harness(binary, cases, tag, threads=1, timeout=1800):
     names = display_names()
     cur = None
     by_id = {c.cid: c for c in cases}
+    if len(by_id) != len(cases):
+        raise BuildError("duplicate case ids")
     thread_diff = []
     for line in p.stdout.splitlines():
         if line.startswith("CASE "):
